@@ -26,8 +26,8 @@ func init() {
 		Title: "Variable byte integers are encoded minimally and decoded exactly",
 		Level: "model_checking",
 		Rule: "odometer over the raw spaces: (a) every value 0..2^28-1 encoded by the library's encoder (hook), compared byte for byte with an independent reference encoding, " +
-			"then decoded by the in-memory decoder (as buffer.get drives it) and by the streaming decoder with tails {none,00,ff,80}: value, bytes advanced and bytes drawn from a counting reader must be exact; " +
-			"(b) every byte string up to the tier's length given as the whole data / whole stream: both decoders must agree with a 12-line reference decoder on value or rejection; " +
+			"then decoded by the in-memory decoder (as buffer.get drives it) and by the streaming decoder with tails {none,00,ff,80} (the in-memory decoder also with 8, 9 and 17 more bytes after the integer - a decoder may take another path when a machine word of data remains): value, bytes advanced and bytes drawn from a counting reader must be exact; " +
+			"(b) every byte string up to the tier's length given as the whole data / whole stream: both decoders must agree with a 12-line reference decoder on value or rejection, the in-memory decoder also on the string followed by 8, 9 and 17 more bytes (the reference decides anew what the longer string means); " +
 			"(c) the same codec at its public use sites: Subscribe.SetSubscriptionID round trips for every value whose four 7-bit groups come from {0,1,2,3,3f,40,41,7e,7f} (6560 values); subscription identifiers carried by a PUBLISH (packed 128 per packet, written through the API, read by the specification decoder for value and minimal form, read back by ReadPacket) for every value below 2^24 (thorough: all 2^28); remaining length of a PUBLISH written and read back for every value 4..20000 (thorough ..70000 and 2^21+-300); " +
 			"(e) every byte string of (b) also as the remaining-length field of a real stream (first byte, field, announced body): ReadPacket must reject what the reference rejects and consume exactly the frame of a minimal field (values up to 70 000); " +
 			"(d) the streaming decoder fed through buffering readers (bufio 16/4096/pre-filled, own type with Peek/Discard, LimitedReader) whose source hands over 1..4 bytes per Read, so that the buffer ends inside the integer: the group values and every byte string of length <= 2 (thorough 3) with each tail; " +
@@ -439,6 +439,16 @@ func runC15(x *core.Ctx) {
 			x.Report(f, func() core.Case { return core.Case{Harness: "c15.api.remlen", Params: map[string]any{"value": tt}} },
 				func() *core.Finding { return c15APIladder(tt) })
 		}
+		// the same ladder with values in the packet that are held but not
+		// written (subscription identifier 0, a packet identifier at QoS 0):
+		// a size computed apart from the bytes written must still agree
+		x.Eval("api.remlen.dense.unwritten-values")
+		if f := c15APIladderUnwritten(t); f != nil {
+			x.Report(f, func() core.Case {
+				return core.Case{Harness: "c15.api.remlen.unwritten", Params: map[string]any{"value": tt}}
+			},
+				func() *core.Finding { return c15APIladderUnwritten(tt) })
+		}
 	}
 }
 
@@ -491,6 +501,28 @@ func c15APIcase(v uint32) *core.Finding {
 		if d.SubscriptionID() != int(v) {
 			return &core.Finding{Class: "api-subid-reused-destination", Detail: fmt.Sprintf("subscription identifier %d decoded into a SUBSCRIBE that held %d reads %d", v, old, d.SubscriptionID())}
 		}
+	}
+	return nil
+}
+
+// c15APIladderUnwritten: a PUBLISH sized like c15APIladder's, holding
+// subscription identifier 0 twice and a packet identifier at QoS 0; whatever
+// the encoder does with them, the remaining-length field must be the
+// minimal encoding of the number of bytes that follow it.
+func c15APIladderUnwritten(target int) *core.Finding {
+	p := mq.NewPublish()
+	p.SetTopicName("t")
+	p.SetPayload(bytes.Repeat([]byte{'x'}, target-4))
+	p.AddSubscriptionID(0)
+	p.AddSubscriptionID(0)
+	p.SetPacketID(7)
+	b, n, werr, res := writePacket(p, 0)
+	if res.Panic != "" || werr != nil {
+		return nil // C10's business
+	}
+	v, w, ok := refDecode(b[1:min(len(b), 6)])
+	if !ok || int(v) != len(b)-1-w || !bytes.Equal(refEncode(v), b[1:1+w]) || int(n) != len(b) {
+		return &core.Finding{Class: "api-remlen-unwritten-values", Detail: fmt.Sprintf("PUBLISH with a payload of %d bytes holding subscription identifier 0 (twice) and a packet identifier at QoS 0: %d bytes written, header % x: the remaining-length field is not the minimal encoding of the %d bytes that follow it", target-4, len(b), b[:min(len(b), 6)], len(b)-1-w)}
 	}
 	return nil
 }
@@ -763,6 +795,8 @@ func replayC15(c core.Case) *core.Finding {
 		return c15APIcase(uint32(paramInt(c.Params, "value")))
 	case "c15.api.remlen":
 		return c15APIladder(paramInt(c.Params, "value"))
+	case "c15.api.remlen.unwritten":
+		return c15APIladderUnwritten(paramInt(c.Params, "value"))
 	case "c15.api.publish":
 		first, cnt := uint32(paramInt(c.Params, "value")), paramInt(c.Params, "count")
 		if cnt == 0 {
